@@ -1,4 +1,5 @@
 #include "../../include/Level/level.h"
+#include "../../include/common/verif_trace.h"
 
 #include "../../include/Residual/ResidualGive/residualGive.h"
 #include "../../include/Residual/ResidualTake/residualTake.h"
@@ -100,6 +101,7 @@ void Level::initializeResidual(const DomainGeometry& domain_geometry,
 }
 void Level::computeResidual(Vector<double>& result, const Vector<double>& rhs, const Vector<double>& x) const
 {
+    VERIF_TRACE("residual", level_depth_, &result, &rhs, &x);
     if (!op_residual_)
         throw std::runtime_error("Residual not initialized.");
     op_residual_->computeResidual(result, rhs, x);
@@ -137,6 +139,7 @@ void Level::initializeDirectSolver(const DomainGeometry& domain_geometry,
 
 void Level::directSolveInPlace(Vector<double>& x) const
 {
+    VERIF_TRACE("directSolve", level_depth_, &x);
     if (!op_directSolver_)
         throw std::runtime_error("Coarse Solver not initialized.");
     op_directSolver_->solveInPlace(x);
@@ -162,6 +165,7 @@ void Level::initializeSmoothing(const DomainGeometry& domain_geometry,
 }
 void Level::smoothing(Vector<double>& x, const Vector<double>& rhs, Vector<double>& temp) const
 {
+    VERIF_TRACE("smooth", level_depth_, &x, &rhs, &temp);
     if (!op_smoother_)
         throw std::runtime_error("Smoother not initialized.");
     op_smoother_->smoothing(x, rhs, temp);
@@ -187,6 +191,7 @@ void Level::initializeExtrapolatedSmoothing(const DomainGeometry& domain_geometr
 }
 void Level::extrapolatedSmoothing(Vector<double>& x, const Vector<double>& rhs, Vector<double>& temp) const
 {
+    VERIF_TRACE("exSmooth", level_depth_, &x, &rhs, &temp);
     if (!op_extrapolated_smoother_)
         throw std::runtime_error("Extrapolated Smoother not initialized.");
     op_extrapolated_smoother_->extrapolatedSmoothing(x, rhs, temp);
